@@ -10,6 +10,6 @@ while true; do
     sleep 20; continue
   fi
   set -- $next
-  python3 /verif/tools/confirm_seeded.py "$1" "$2" --slot 1 $3 > "/verif/.work/confirm_$(basename $2).log" 2>&1
+  python3 /verif/tools/confirm_seeded.py "$1" "$2" --slot ${SLOT:-1} $3 > "/verif/.work/confirm_$(basename $2).log" 2>&1
   echo "$next" >> $D
 done
